@@ -154,10 +154,12 @@ def h_transfer(eng, ff):
     lig_names = ["L1", ["L2", "O"][eng.choice("ligand_has_atom_named_O", 2)]]
     other_name = ["X1", "L1"][eng.choice("other_group_reuses_ligand_atom_name", 2)]
     w = flow.World(eng, "r", False, {}, [])
+    split = eng.choice("ligand_spans_two_residues", 2)
+    lig_res = [("LIG", [(nm, "HETATM", False) for nm in lig_names])] if not split else [("LIG", [(lig_names[0], "HETATM", False)]), ("LIG", [(lig_names[1], "HETATM", False)])]
     w.residue_specs = [
         ("ALA", [("N", "ATOM", True), ("CA", "ATOM", True)]),
         ("WAT", [(water_o, "HETATM", True), ("H1", "HETATM", True)]),
-        ("LIG", [(nm, "HETATM", False) for nm in lig_names]),
+        *lig_res,
         ("SO4", [(other_name, "HETATM", False), ("S", "HETATM", False)]),
     ]
     w.ligand_atoms = {lig_names[0]: _MolAtom(lig_names[0], 0.5, 1.75), lig_names[1]: _MolAtom(lig_names[1], -0.5, 1.6)}
@@ -183,10 +185,10 @@ def h_transfer(eng, ff):
     bm = captured["bm"]
     printed = [x[1][0] for x in w.log if x[0] == "atom.get_pqr_string"]
     by_id = {a._desc[1]: a for a in bm.atoms}
-    lig = bm.residues[2]
+    ligs = [r for r in bm.residues if r.name == "LIG"]
     for a in bm.atoms:
         n = printed.count(a._desc[1])
-        if a.residue is lig:
+        if any(a.residue is lg for lg in ligs):
             eng.check(n == 1, "ligand-atom-written-once", note=f"ligand atom {a.name} written {n} times")
             m = w.ligand_atoms[a.name]
             eng.check(a.ffcharge == m.charge and a.radius == m.radius, "ligand-atom-has-ligand-parameters")
@@ -231,7 +233,7 @@ META = dict(
     bounds=[
         "graphs: pair, pair of equal types, 3-chain, triangle, isolated atom (thorough: + hetero 3-chain, 4-star, 4-chain); formal charges symbolic in [-3,3]; 1-2 (thorough 3) cycles, and the default 6 cycles on the pair",
         "atom orders: identity and reversed",
-        "transfer: ligand atom named like the water oxygen or not, other hetero group reusing a ligand atom name or not (symbolic choices); ff in {PARSE, amber}",
+        "transfer: ligand atom named like the water oxygen or not, other hetero group reusing a ligand atom name or not, ligand in one residue or spanning two (symbolic choices); ff in {PARSE, amber}",
         "radii: table lemma, exhaustive over the Sybyl types of NONBONDED_BY_TYPE",
     ],
     outside=["MOL2 parsing, ring perception, bond-order/formal-charge heuristics of Mol2Atom.formal_charge", "floating point: exact reals, conservation up to 1e-9", "molecules with more than four atoms"],
